@@ -445,7 +445,7 @@ def submit_incl(ctx, pool):
         for d in ("/usr/local/include", "/usr/include/x86_64-linux-gnu", "/usr/include"):
             if os.path.exists("%s/%s.h" % (d, n)):
                 raise Infra("%s/%s.h exists on this machine; scenario header names would collide" % (d, n))
-    strides = dict(R1=4, R2=24, C=8, G=1, P=1) if q else dict(R1=1, R2=1, C=1, G=1, P=1)
+    strides = dict(R1=5, R2=24, C=12, G=2, P=2) if q else dict(R1=1, R2=1, C=1, G=1, P=1)
     jobs = dict(gen=[], ctl=[])
     for fam, nopt in FAMS:
         out = os.path.join(ctx.scratch, "incl-%s.ndjson" % fam)
